@@ -203,6 +203,7 @@ class Run:
         self.broken = []           # proof obligations / correspondences that no longer check
         self.evaluations = 0
         self.distinct = set()
+        self.distinct_bulk = 0   # distinct cases counted where they were evaluated (worker-side sweeps)
         self.samples = []
         self.branches = {}
         self.notes = []
@@ -310,7 +311,7 @@ def finish(run, matchers=None):
         print(l)
     write_evidence(run, len(new) + (1 if code and not new else 0), broken)
     print("%s %s tier=%s seed=%d evaluations=%d distinct=%d obligations=%s discharged=%s wall=%.1fs" % (
-        "FAIL" if code else "ok", run.pid, run.tier, run.seed, run.evaluations, len(run.distinct),
+        "FAIL" if code else "ok", run.pid, run.tier, run.seed, run.evaluations, len(run.distinct) + run.distinct_bulk,
         run.proof and run.proof["obligations"], run.proof and run.proof["discharged"], time.time() - run.t0))
     return code
 
@@ -325,7 +326,7 @@ def write_evidence(run, nviol, broken):
         "trusted_base": run.trusted,
         "theorems": {k: v for k, v in sorted(pr.get("theorems", {}).items())},
         "evaluations": run.evaluations,
-        "distinct_nontrivial": len(run.distinct),
+        "distinct_nontrivial": len(run.distinct) + run.distinct_bulk,
         "rule": run.rule,
         "samples": run.samples,
         "exhaustive": bool(run.exhaustive),
